@@ -25,6 +25,8 @@ type scriptIn struct {
 	// Burst: the script contains groups "x+y" applied back to back (several select cases ready at once). The
 	// implementation may then legitimately end up where a later stimulus no longer applies: the script just ends there.
 	Burst bool `json:"burst"`
+	// By: a bystander lease of the same deployment is deployed before the script starts
+	By bool `json:"by"`
 }
 
 type scriptResult struct {
@@ -46,7 +48,7 @@ func contains(xs []string, x string) bool {
 // runScript replays one stimulus script under the forced schedule: the next stimulus is applied only when the
 // implementation has nothing left to do for the previous one (every wait is on a hook event).
 func runScript(sc scriptIn) scriptResult {
-	w, err := newWorld(worldOpts{forced: true, hnFail: strings.Contains(strings.Join(sc.Stim, " "), "hfail"), preexisting: sc.Pre, dseq: uint64(1000 + sc.ID)})
+	w, err := newWorld(worldOpts{forced: true, hnFail: strings.Contains(strings.Join(sc.Stim, " "), "hfail"), preexisting: sc.Pre, bystander: sc.By, dseq: uint64(1000 + sc.ID)})
 	if err != nil {
 		if w != nil {
 			w.close()
